@@ -388,3 +388,27 @@ def r11(ctx, R):
         R.check(ok, f'{ci.name} :: {val} is remembered from the status of the step the solution belongs to', f'{m.relpath}:{ci.name}', f"{val} = step.status.get('restarts_in_a_row', 0) in post_step", src)
     if not n:
         raise AnalysisError('C14.R11: the confirmed override site (LogGlobalErrorPostRun.post_run) not found')
+
+
+@rule('C14', 'C14.R12', 'accumulated records accumulate: increment_stats ADDS to an existing entry and creates a missing one (with `initialize` if given, else with the value) - the membership test and the two stores are wired in this polarity', floor=3)
+def r12(ctx, R):
+    repo = ctx.repo
+    fn = repo.func(HK, 'Hooks.increment_stats')
+    w = f'{HK}:Hooks.increment_stats'
+    R.fn(w)
+    cfg = FuncCFG(fn)
+    rows = []
+    for n, s in cfg.stmt_of.items():
+        tgt = s.target if isinstance(s, ast.AugAssign) else s.targets[0] if isinstance(s, ast.Assign) and len(s.targets) == 1 else None
+        if tgt is None or not (isinstance(tgt, ast.Subscript) and ast.unparse(tgt.value).endswith('__stats')):
+            continue
+        g = tuple(sorted((ast.unparse(t), pol) for t, pol in cfg.guards.get(id(s), ())))
+        rows.append(('+=' if isinstance(s, ast.AugAssign) else '=', ast.unparse(s.value), g))
+    member = lambda g, pol: any(re.fullmatch(r'key in self\.(_Hooks)?__stats(\.keys\(\))?', t) and p == pol for t, p in g)
+    add = [r for r in rows if r[0] == '+=']
+    new = [r for r in rows if r[0] == '=']
+    R.check(len(add) == 1 and add[0][1] == 'value' and member(add[0][2], True), 'Hooks.increment_stats :: an existing entry is incremented by the value', w, 'if key in stats: stats[key] += value', add)
+    ini = [r for r in new if r[1] == 'initialize']
+    val = [r for r in new if r[1] == 'value']
+    R.check(len(ini) == 1 and member(ini[0][2], False) and any(t == 'initialize is not None' and p for t, p in ini[0][2]), 'Hooks.increment_stats :: a missing entry starts from `initialize` when it is given', w, 'elif initialize is not None: stats[key] = initialize', ini)
+    R.check(len(val) == 1 and member(val[0][2], False) and any(t == 'initialize is not None' and not p for t, p in val[0][2]), 'Hooks.increment_stats :: otherwise a missing entry starts from the value', w, 'else: stats[key] = value', val)
